@@ -194,7 +194,105 @@ func c03Facts(fs *Facts, s *c02Src) {
 	fs.Tri("truncatesTornTail", tr, w)
 	t, w = c25FlushesAtCountBound(s)
 	fs.Tri("flushesAtCountBound", t, w)
+	t, w = c03LockedClosesWriterFirst(s)
+	fs.Tri("lockedClosesWriterFirst", t, w)
+	t, w = c03CliAbortsWhenStopFails(s)
+	fs.Tri("cliAbortsWhenStopFails", t, w)
+	t, w = c03WrappersDelegate(s)
+	fs.Tri("wrappersDelegate", t, w)
+	t, w = c02ZeroTailIsEOF(s)
+	fs.Tri("zeroTailIsEOF", t, w)
 	c25ReaderAssumptions(fs, s)
+}
+
+// runCompactionLocked closes the chronicler's writer first, whenever one is open (whatever its buffer holds):
+//   `if c.writer != nil && !c.writerClosed { if err := c.writer.Close(); err != nil { return err } c.writerClosed = true c.writer = nil }`
+// as the first statement, in front of NewCompactor.
+func c03LockedClosesWriterFirst(s *c02Src) (Tri, string) {
+	if s.ch == nil {
+		return Unknown, ""
+	}
+	fd := s.ch.Func("chroniclerV2", "runCompactionLocked")
+	if fd == nil || len(fd.Body.List) == 0 {
+		return Unknown, c02Chron
+	}
+	where := c02Where(s.ch, fd)
+	ifs, ok := fd.Body.List[0].(*ast.IfStmt)
+	if !ok || !strings.Contains(s.ch.Str(ifs.Body), "c.writer.Close()") {
+		return Unknown, where
+	}
+	body := s.ch.Str(ifs.Body)
+	if s.ch.Str(ifs.Cond) == "c.writer != nil && !c.writerClosed" && strings.Contains(body, "c.writer = nil") &&
+		strings.Contains(body, "c.writerClosed = true") {
+		return Yes, c02Where(s.ch, ifs)
+	}
+	return Unknown, c02Where(s.ch, ifs)
+}
+
+// hydraidectl compact goes on only when the instance is known not to run: a StopInstance error other than
+// ErrServiceNotRunning / ErrServiceNotFound ends the command (the model's offline compaction needs no writer open).
+func c03CliAbortsWhenStopFails(s *c02Src) (Tri, string) {
+	if s.cli == nil {
+		return Unknown, ""
+	}
+	var stop *ast.IfStmt
+	ast.Inspect(s.cli.AST, func(n ast.Node) bool {
+		if ifs, ok := n.(*ast.IfStmt); ok && ifs.Init != nil && strings.Contains(s.cli.Str(ifs.Init), "runner.StopInstance(ctx, compactInstanceName)") {
+			stop = ifs
+		}
+		return true
+	})
+	if stop == nil {
+		return Unknown, c02CliCompt
+	}
+	where := c02Where(s.cli, stop)
+	body := s.cli.Str(stop.Body)
+	if !strings.Contains(body, "os.Exit(") && !strings.Contains(body, "return") {
+		return No, where // every error is taken for "was not running"
+	}
+	for _, st := range stop.Body.List {
+		g, ok := st.(*ast.IfStmt)
+		if !ok {
+			continue
+		}
+		c := s.cli.Str(g.Cond)
+		if strings.Contains(c, "!errors.Is(err, instancerunner.ErrServiceNotRunning)") && !strings.Contains(c, "||") &&
+			strings.HasSuffix(s.cli.Str(g.Body), "os.Exit(1) }") {
+			return Yes, where
+		}
+	}
+	return Unknown, where
+}
+
+// The other entries of the compactor are Compactor.Compact on one file, or nothing:
+//   CompactIfNeeded: ShouldCompact, then `return c.Compact()`;  ForceCompact: `return c.Compact()`;
+//   CompactDirectory: for every *.hyd of the directory NewCompactor(...).CompactIfNeeded(), no file operation of its own.
+func c03WrappersDelegate(s *c02Src) (Tri, string) {
+	if s.c == nil {
+		return Unknown, ""
+	}
+	cin, fc, cd := s.c.Func("Compactor", "CompactIfNeeded"), s.c.Func("Compactor", "ForceCompact"), s.c.Func("", "CompactDirectory")
+	if cin == nil || fc == nil || cd == nil {
+		return Unknown, c02Compact
+	}
+	where := c02Where(s.c, cd)
+	effect := func(fd *ast.FuncDecl) bool {
+		for _, bad := range []string{"os.Remove", "os.Rename", "os.WriteFile", "os.Create", "os.OpenFile", "os.Truncate", "NewFileWriter", "CompactFromIndex"} {
+			if s.c.Contains(fd, bad+"(") {
+				return true
+			}
+		}
+		return false
+	}
+	last := func(fd *ast.FuncDecl) string { return s.c.Str(fd.Body.List[len(fd.Body.List)-1]) }
+	okIf := len(s.c.Calls(cin, "c.Compact")) == 1 && last(cin) == "return c.Compact()" && len(s.c.Calls(cin, "c.ShouldCompact")) == 1 && !effect(cin)
+	okForce := len(s.c.Calls(fc, "c.Compact")) == 1 && last(fc) == "return c.Compact()" && !effect(fc)
+	okDir := len(s.c.Calls(cd, "NewCompactor")) == 1 && len(s.c.Calls(cd, "compactor.CompactIfNeeded")) == 1 && !effect(cd) &&
+		s.c.Contains(cd, `filepath.Ext(entry.Name()) != ".hyd"`)
+	if okIf && okForce && okDir {
+		return Yes, where
+	}
+	return Unknown, where
 }
 
 func init() {
